@@ -1374,9 +1374,16 @@ namespace hgraph
         {
             auto  reduce_view = view.as<ReduceNodeView>();
             auto &storage     = *MemoryUtils::cast<ReduceNodeStorage>(reduce_view.internal_storage());
+            // Best-effort, like graph stop: a combiner whose stop throws must not
+            // keep the remaining combiner graphs from stopping. The first
+            // failure is reported once every combiner has had its attempt.
+            FirstExceptionRecorder failures;
             for (const auto *entry : storage.combiners)
             {
-                if (entry != nullptr && entry->graph.has_value()) { entry->graph.view().stop(); }
+                if (entry != nullptr && entry->graph.has_value())
+                {
+                    failures.capture([&] { entry->graph.view().stop(); });
+                }
             }
             storage.evaluation_positions.clear();
             storage.modified_leaves.clear();
@@ -1384,6 +1391,7 @@ namespace hgraph
             storage.structural_positions.clear();
             storage.resume_candidate_plus_one = 0;
             storage.has_future_combiner_schedule = false;
+            failures.rethrow_if_any();
         }
 
         void validate_reduce_node_spec(const NodeTypeMetaData &meta, const ReduceNodeSpec &spec)
